@@ -18,12 +18,16 @@ constexpr int NMON = 3;    // lifetime-monitor slots per deathwatched object
 constexpr int NMONX = NMON + 1;  // + one slot for a scoped (non-NAMED) REQUIRE_DESTRUCTION inside a scoped block
 constexpr int MAXTR = 3;   // tracer nesting depth
 
-enum Func { F_f = 0, F_h, F_ovi, F_ovs, F_v, F_cf, F_g, NFUNC };
+enum Func { F_f = 0, F_h, F_ovi, F_ovs, F_v, F_cf, F_g, F_w, NFUNC };   // F_w: twelve int parameters (two-digit positions in reports and trace records)
 inline const char* func_name(int f) {
-  static const char* n[] = {"f", "h", "ov(int)", "ov(string)", "v", "cf", "g"};
+  static const char* n[] = {"f", "h", "ov(int)", "ov(string)", "v", "cf", "g", "w"};
   return (f >= 0 && f < NFUNC) ? n[f] : "?";
 }
-inline int func_arity(int f) { return f == F_g ? 2 : 1; }
+inline int func_arity(int f) { return f == F_g ? 2 : f == F_w ? 12 : 1; }
+// position (0-based) of the parameter the second matcher / second WITH / second call argument refers to; -1: none
+inline int second_pos(int f) { return f == F_g ? 1 : f == F_w ? 10 : -1; }
+// the arguments of a call: F_w passes a0 first, a1 eleventh and values derived from a0 elsewhere
+inline int call_arg(int f, int k, int a0, int a1) { return k == 0 ? a0 : k == second_pos(f) ? a1 : (a0 + k) % 7; }
 
 // parameter matcher kinds (all realised by the *library's* matchers behind a type-erased wrapper)
 enum MKind { M_WILD = 0, M_ANY, M_VALUE, M_EQ, M_NE, M_LT, M_LE, M_GT, M_GE, NMKIND };
